@@ -66,14 +66,15 @@ def fingerprint(ds):
 
 def table_names(ds): return list(ds._data.tables.keys())
 
-def run_save_with_crash(ds_new, path, k, torn, del_order):
+def run_save_with_crash(ds_new, path, k, torn, del_order, trace=None):
     """Run DataContainer.save with its k-th file-system step interrupted.  A step is any removal of a directory entry under `path`
     (the entries of a pre-existing directory go in `del_order` when the code removes the whole tree), the rmdir, the mkdir, and every
     file written under `path` (schema, one per table, summary).  The injection points are the file-system primitives themselves, so a
     save that is re-organised still gets interrupted at each of its steps.  The directory is left as the crash left it."""
     import shutil as _sh
     step = {"n": 0}
-    def tick(write_path=None, partial=None):
+    def tick(write_path=None, partial=None, what=None):
+        if trace is not None: trace.append(what if what is not None else ("write", os.path.basename(str(write_path))))
         if step["n"] == k:
             if torn and write_path is not None:
                 with real_open(write_path, "wb") as f: f.write(partial if partial is not None else b"PAR1 trunc")
@@ -86,13 +87,13 @@ def run_save_with_crash(ds_new, path, k, torn, del_order):
         if not under(p_): return real_rmtree(p_, *a, **kw)
         present = set(os.listdir(p_))
         for name in [n for n in del_order if n in present] + sorted(present - set(del_order)):
-            tick(); real_remove(Path(p_) / name)
-        tick(); real_rmdir(p_)
+            tick(what=("rm", name)); real_remove(Path(p_) / name)
+        tick(what=("rmdir",)); real_rmdir(p_)
     def fake_remove(p_, *a, **kw):
-        if under(p_): tick()
+        if under(p_): tick(what=("rm", os.path.basename(str(p_))))
         return real_remove(p_, *a, **kw)
     def fake_rmdir(p_, *a, **kw):
-        if under(p_): tick()
+        if under(p_): tick(what=("rmdir",))
         return real_rmdir(p_, *a, **kw)
     def fake_write_table(table, where, **kw):
         if under(where): tick(write_path=where)
@@ -106,7 +107,7 @@ def run_save_with_crash(ds_new, path, k, torn, del_order):
         tick(write_path=out, partial=b"# Summ")
         return real_save_stats(data, out)
     def fake_mkdir(self, *a, **kw):
-        if str(self) == str(path): tick()
+        if str(self) == str(path): tick(what=("mkdir",))
         return real_mkdir(self, *a, **kw)
     saved_cont = {nm: getattr(cont, nm) for nm in ("rmtree", "write_table") if hasattr(cont, nm)}
     for nm, fk in (("rmtree", fake_rmtree), ("write_table", fake_write_table)):
@@ -124,6 +125,41 @@ def run_save_with_crash(ds_new, path, k, torn, del_order):
         _sh.rmtree = real_rmtree; pq.write_table = real_pq_write; summ.save_stats = real_save_stats
         os.remove, os.unlink, os.rmdir = real_remove, real_unlink, real_rmdir
         del cont.open; Path.mkdir = real_mkdir
+
+def lean_save_trace():
+    """Run the real `DataContainer.save` once over an existing directory and once into a fresh one, with every file-system step recorded
+    (no interruption), and render the two step sequences as Lean data for `LK/Proofs/SaveTraceC15.lean`."""
+    _imports()
+    WORK.mkdir(exist_ok=True, parents=True)
+    old = make_ds(1, extra_class=True); new = make_ds(2, extra_class=False)
+    def fname(n):
+        if n == "schema.json": return "FName.schema"
+        if n == "summary.md": return "FName.summary"
+        if n.endswith(".parquet"): return f'FName.table "{n[:-8]}"'
+        raise ValueError(f"unexpected file {n} in a dataset directory")
+    def content(n): return "Content.schema newDs" if n == "schema.json" else ("Content.summary" if n == "summary.md" else "Content.table 2")
+    def render(tr):
+        out = []
+        for st in tr:
+            if st[0] == "rm": out.append(f"Step.rm ({fname(st[1])})")
+            elif st[0] in ("rmdir", "mkdir"): out.append("Step." + st[0])
+            else: out.append(f"Step.write ({fname(st[1])}) ({content(st[1])})")
+        return "[" + ",\n   ".join(out) + "]"
+    tmp = tempfile.mkdtemp(prefix="c15tr_", dir=WORK)
+    try:
+        p1 = Path(tmp) / "ds"; old.save(p1); names = sorted(os.listdir(p1)); t1 = []
+        if run_save_with_crash(new, p1, 10**9, False, names, trace=t1) != "completed": raise RuntimeError("traced save did not complete")
+        p2 = Path(tmp) / "fresh"; t2 = []
+        if run_save_with_crash(new, p2, 10**9, False, [], trace=t2) != "completed": raise RuntimeError("traced save did not complete")
+    finally:
+        shutil.rmtree(tmp, ignore_errors=True)
+    q = lambda xs: "[" + ", ".join(f'"{x}"' for x in xs) + "]"
+    return ("import LK.Model.Persist\n/-! GENERATED on every run of `./check C15` (harness/lkv/props/c15.py `lean_save_trace`): the file-system steps the real\n"
+            "`DataContainer.save` performed — over a directory holding another dataset, and into a fresh directory — recorded at the\n"
+            "file-system primitives (remove / rmdir / mkdir / every file opened for writing); do not edit. -/\nnamespace LK.Gen.SaveTraceC15\nopen LK.Persist\n\n"
+            f"def oldDs : DSd := {{ tag := 1, tables := {q(table_names(old))} }}\ndef newDs : DSd := {{ tag := 2, tables := {q(table_names(new))} }}\n"
+            f"def delOrder : List FName := [{', '.join(fname(n) for n in names)}]\n\n"
+            f"def observedOverExisting : List Step :=\n  {render(t1)}\n\ndef observedFresh : List Step :=\n  {render(t2)}\n\nend LK.Gen.SaveTraceC15\n")
 
 def load_verdict(path, fp_old, fp_new):
     try:
